@@ -188,7 +188,15 @@ def plan_C19(seed, run, engine, tier="quick", entry=None):
     finally:
         P._FORCED["entry"] = None
     degen = choice(rng, G.DEGEN_KINDS)
-    prob = G.gen_problem(rng, e, degen=degen)
+    kw = {}
+    if e[0] in ("AndersonCD", "MultiTaskBCD", "GramCD") and rng.random() < 0.2:
+        # the blown-up column with bounded liveness: overdetermined, convex
+        convex = [v for v in e[2] if v in ("L1", "WL1", "EN", "L1+", "L21")]
+        if convex:
+            degen = "scale_1e9"
+            pp = int(rng.integers(2, 12))
+            kw = dict(variant=choice(rng, convex), p=pp, n=pp + int(rng.integers(2, 12)))
+    prob = G.gen_problem(rng, e, degen=degen, **kw)
     if prob["storage"] == "csc" and rng.random() < 0.5:
         # how the degenerate structure is *stored* matters: explicit zeros, unsorted indices,
         # 64-bit index arrays
@@ -196,8 +204,11 @@ def plan_C19(seed, run, engine, tier="quick", entry=None):
     solver = e[0]
     fi, p = prob["fi"], P._p(prob)
     gs = P._gscale(prob)
+    rest = prob["family"].get("alpha_max_rest")
+    if rest:
+        gs = rest       # tolerances at the scale of the columns that are not blown up
     ops = []
-    k = G.gen_knobs(rng, solver, p, fi, gs, ample=rng.random() < 0.6)
+    k = G.gen_knobs(rng, solver, p, fi, gs, ample=(rng.random() < 0.6) and not kw)
     st, w0 = P._start(rng, prob)
     ops.append(dict(op="solve", start=st, w0=w0, knobs=k, faults=G.gen_faults(rng, solver, 0.3),
                     storage=prob["storage"]))
@@ -210,6 +221,14 @@ def plan_C19(seed, run, engine, tier="quick", entry=None):
     Xa = np.abs(np.asarray(prob["data"]["X"], dtype=float))
     ya = np.abs(np.asarray(prob["data"]["y"], dtype=float))
     floor = 1e-13 * max(float(Xa.max(initial=0.0)), 1e-300) * max(float(ya.max(initial=0.0)), 1.0)
+    if rest and solver in ("AndersonCD", "MultiTaskBCD", "GramCD"):
+        # "... never fails to terminate": coordinate descent with exact coordinate steps is
+        # invariant under column scaling, so a blown-up column may not keep a well-conditioned
+        # convex problem from converging within the ample budget of a quiescent solve
+        kq = dict(k)
+        kq["tol"] = float(G.sig3(max(gs * 1e-4, 10 * floor), 3))
+        ops.append(dict(op="quiesce", knobs=kq, storage=prob["storage"], optimum=False,
+                        liveness=False, liveness_scale=True, budget=[30, 300]))
     for o in ops:
         if o["knobs"]["tol"] < floor:
             o["knobs"]["tol"] = float(G.sig3(floor, 3))
